@@ -39,6 +39,8 @@ use crate::engine::{Probe, PropertyInfo, RunCtx};
 mod conc;
 #[path = "c19/fixture.rs"]
 mod fixture;
+#[path = "c19/guard.rs"]
+mod guard;
 #[path = "c19/hist.rs"]
 mod hist;
 #[path = "c19/paths.rs"]
@@ -69,6 +71,7 @@ pub fn info() -> PropertyInfo {
             "history search: the reference model knows only the property's rule (a version obtained before a later successful write/creation of the same path must not be accepted; guessed version 1 only before the first write), not the server's version arithmetic; spurious conflicts are accepted",
             "concurrency: real OS threads with generated yields/spins, 20-100 repetitions per script; interleavings are perturbed, not enumerated",
             "Linux path semantics (backslash is an ordinary file-name byte)",
+            "containment: fixtures 8 directory levels below a per-worker scratch directory, every string handed to the API passes a hostile-normalisation guard (<= 8 parent-like components, absolute only inside the moat), a root process drops to uid/gid 65534 before the first call, the working directory is inside the moat; absolute system paths and unbounded '..' chains are therefore NOT part of the searched domain",
         ],
         workers_quick: 8,
         workers_thorough: 16,
@@ -272,7 +275,11 @@ impl Env {
         s.replace("{S}", &self.fx.s.to_string_lossy())
     }
 
-    pub fn exec(&mut self, call: &Call, tok: &str, valid_editor: bool) -> Outcome {
+    pub fn exec(&mut self, call: &Call, tok: &str, valid_editor: bool) -> Result<Outcome, String> {
+        // containment: last line of defence, immediately before the strings reach the API
+        for t in [&call.path, &call.path2, &call.path3] {
+            guard::check_template(t).map_err(|why| format!("unsafe: {t:?}: {why}"))?;
+        }
         let ide = &self.ide;
         let path = self.subst(&call.path);
         let path2 = self.subst(&call.path2);
@@ -395,7 +402,7 @@ impl Env {
                 out.reply = full[..end].to_string();
             }
         }
-        out
+        Ok(out)
     }
 }
 
@@ -514,7 +521,14 @@ pub fn check_call(
     idx: usize,
 ) -> Result<Snapshot, String> {
     let (tok, valid_editor) = env.token_for(&call.session)?;
-    let out = env.exec(call, &tok, valid_editor);
+    let out = env.exec(call, &tok, valid_editor)?;
+    // containment: the directories above the fixture are exactly what the check put there
+    if let Err(why) = moat().intact() {
+        return Err(format!(
+            "call {} reached above the scratch root S: {why}",
+            describe_call(call)
+        ));
+    }
     let after = fixture::snapshot(&env.fx.s);
     let ctx = |what: String| -> String {
         format!(
@@ -732,6 +746,8 @@ pub fn run_path_case(
     probe: &mut Probe,
 ) -> Result<(), String> {
     let case = apply_exclusions(case, open, probe);
+    // containment: validate the whole case before a single call runs
+    validate_path_case(&case)?;
     let fx = Fixture::build(&scratch.join("S"), case.links)?;
     let mut env = Env::new(fx);
     NONTRIVIAL.with(|n| *n.borrow_mut() = false);
@@ -800,18 +816,133 @@ impl ShrinkBudget {
     }
 }
 
-fn scratch_dir(ctx: &RunCtx) -> PathBuf {
-    ctx.out_dir
-        .join(format!("scratch-{}-{}", ctx.worker, std::process::id()))
+static MOAT: std::sync::OnceLock<guard::Moat> = std::sync::OnceLock::new();
+
+pub fn moat() -> &'static guard::Moat {
+    MOAT.get().expect("moat not built")
+}
+
+/// Every string of the case that would be handed to the API, with the guard's verdict.
+pub fn validate_path_case(case: &PathCase) -> Result<(), String> {
+    for c in &case.calls {
+        for t in [&c.path, &c.path2, &c.path3] {
+            guard::check_template(t).map_err(|why| format!("unsafe: {t:?}: {why}"))?;
+        }
+    }
+    Ok(())
+}
+
+fn is_infra(e: &str) -> bool {
+    e.starts_with("fixture:") || e.starts_with("infrastructure:") || e.starts_with("unsafe") || e.starts_with("moat:")
+}
+
+/// Containment set-up (see guard.rs). Returns the directory the fixtures are built in, or
+/// None after having reported why not a single case may run.
+fn contain(ctx: &mut RunCtx) -> Option<PathBuf> {
+    // absolute locations first: the working directory is about to move into the moat
+    let root = match crate::engine::verif_root().canonicalize() {
+        Ok(r) => r,
+        Err(e) => {
+            ctx.inconclusive(format!("containment: cannot resolve the verification root: {e}"));
+            return None;
+        }
+    };
+    std::env::set_var("TPV_ROOT", &root);
+    let _ = std::fs::create_dir_all(&ctx.out_dir);
+    match ctx.out_dir.canonicalize() {
+        Ok(o) => ctx.out_dir = o,
+        Err(e) => {
+            ctx.inconclusive(format!("containment: cannot resolve {}: {e}", ctx.out_dir.display()));
+            return None;
+        }
+    }
+    if let Some(p) = ctx.only_replay.clone() {
+        // the replay file must stay readable after the working directory and the identity changed
+        let copy = ctx.out_dir.join(format!("replay-input-{}.json", std::process::id()));
+        match std::fs::read(&p).and_then(|b| std::fs::write(&copy, b)) {
+            Ok(()) => {
+                use std::os::unix::fs::PermissionsExt;
+                let _ = std::fs::set_permissions(&copy, std::fs::Permissions::from_mode(0o644));
+                ctx.only_replay = Some(copy);
+            }
+            Err(e) => {
+                ctx.inconclusive(format!("containment: cannot copy replay file {}: {e}", p.display()));
+                return None;
+            }
+        }
+    }
+    let top = ctx
+        .out_dir
+        .join(format!("scratch-{}-{}", ctx.worker, std::process::id()));
+    let m = match guard::Moat::build(&top) {
+        Ok(m) => m,
+        Err(e) => {
+            ctx.inconclusive(format!("containment: {e}"));
+            return None;
+        }
+    };
+    match guard::drop_privileges(&m.top, &ctx.out_dir) {
+        Ok(true) => ctx.note("containment: started as root, dropped to uid/gid 65534 before the first web-IDE call; fixtures 8 levels deep in a scratch moat; every path string guarded"),
+        Ok(false) => ctx.note("containment: not root, no privilege drop; relies on the scratch moat (fixtures 8 levels deep), the string guard and the working directory inside the moat"),
+        Err(e) => {
+            ctx.inconclusive(format!("containment: privilege drop failed, no case was run: {e}"));
+            return None;
+        }
+    }
+    // still able to work where we have to?
+    for dir in [m.bottom.clone(), ctx.out_dir.clone()] {
+        let probe = dir.join(format!(".c19-write-test-{}", std::process::id()));
+        if let Err(e) = std::fs::write(&probe, b"x").and_then(|_| std::fs::remove_file(&probe)) {
+            ctx.inconclusive(format!(
+                "containment: cannot write in {} after the privilege drop ({e}); run from a location whose ancestors are world-searchable",
+                dir.display()
+            ));
+            return None;
+        }
+    }
+    if let Err(e) = std::env::set_current_dir(m.cwd()) {
+        ctx.inconclusive(format!("containment: cannot move the working directory into the moat: {e}"));
+        return None;
+    }
+    if let Err(e) = m.intact() {
+        ctx.inconclusive(format!("containment: {e}"));
+        return None;
+    }
+    let bottom = m.bottom.clone();
+    if MOAT.set(m).is_err() {
+        ctx.inconclusive("containment: moat initialised twice");
+        return None;
+    }
+    Some(bottom)
 }
 
 fn run(ctx: &mut RunCtx) {
     let tier = ctx.tier;
-    let scratch = scratch_dir(ctx);
-    if let Err(e) = std::fs::create_dir_all(&scratch) {
-        ctx.inconclusive(format!("cannot create scratch directory {}: {e}", scratch.display()));
+    let Some(scratch) = contain(ctx) else {
         return;
-    }
+    };
+    // TPV_C19_DRYRUN=1: generate exactly the cases of this seed, log every string that WOULD be
+    // handed to the API together with the guard's verdict, call nothing.
+    let dry: Option<RefCell<std::fs::File>> = if std::env::var("TPV_C19_DRYRUN").is_ok() {
+        std::fs::File::create(ctx.out_dir.join(format!("dryrun-{}.log", ctx.worker)))
+            .ok()
+            .map(RefCell::new)
+    } else {
+        None
+    };
+    let dry = &dry;
+    let log = move |search: &str, t: &str| -> Result<(), String> {
+        use std::io::Write;
+        let verdict = guard::check_template(t);
+        if let Some(f) = dry {
+            let _ = writeln!(
+                f.borrow_mut(),
+                "{}",
+                serde_json::to_string(&json!({"search": search, "template": t, "ok": verdict.is_ok()})).unwrap_or_default()
+            );
+        }
+        verdict.map_err(|why| format!("unsafe: {t:?}: {why}"))
+    };
     let open = OpenFindings {
         f27: ctx.is_open(KEY_F27),
         f28: ctx.is_open(KEY_F28),
@@ -834,8 +965,18 @@ fn run(ctx: &mut RunCtx) {
                 if !budget.allow() {
                     return Ok(());
                 }
+                if dry.is_some() {
+                    for c in &case.calls {
+                        for t in [&c.path, &c.path2, &c.path3] {
+                            if let Err(e) = log("paths", t) {
+                                infra.borrow_mut().push(e);
+                            }
+                        }
+                    }
+                    return Ok(());
+                }
                 match run_path_case(case, &scratch, open, probe) {
-                    Err(e) if e.starts_with("fixture:") || e.starts_with("infrastructure:") => {
+                    Err(e) if is_infra(&e) => {
                         infra.borrow_mut().push(e);
                         Ok(())
                     }
@@ -860,8 +1001,16 @@ fn run(ctx: &mut RunCtx) {
                 if !budget.allow() {
                     return Ok(());
                 }
+                if dry.is_some() {
+                    for t in hist::strings_of(case) {
+                        if let Err(e) = log("history", &t) {
+                            infra.borrow_mut().push(e);
+                        }
+                    }
+                    return Ok(());
+                }
                 match hist::run_case(case, &scratch, exclude_f32, probe) {
-                    Err(e) if e.starts_with("fixture:") || e.starts_with("infrastructure:") => {
+                    Err(e) if is_infra(&e) => {
                         infra.borrow_mut().push(e);
                         Ok(())
                     }
@@ -885,8 +1034,14 @@ fn run(ctx: &mut RunCtx) {
                 if !budget.allow() {
                     return Ok(());
                 }
+                if dry.is_some() {
+                    if let Err(e) = log("conc", conc::FILE) {
+                        infra.borrow_mut().push(e);
+                    }
+                    return Ok(());
+                }
                 match conc::run_case(case, &scratch, probe) {
-                    Err(e) if e.starts_with("fixture:") || e.starts_with("infrastructure:") => {
+                    Err(e) if is_infra(&e) => {
                         infra.borrow_mut().push(e);
                         Ok(())
                     }
@@ -897,10 +1052,24 @@ fn run(ctx: &mut RunCtx) {
         );
     }
 
-    let _ = std::fs::remove_dir_all(&scratch);
+    let _ = std::env::set_current_dir(&ctx.out_dir);
+    let _ = std::fs::remove_dir_all(&moat().top);
+    if let Some(p) = &ctx.only_replay {
+        if p.starts_with(&ctx.out_dir) {
+            let _ = std::fs::remove_file(p);
+        }
+    }
     let mut infra = infra.into_inner();
     infra.sort();
     infra.dedup();
+    if ctx.only_replay.is_some() && !infra.is_empty() {
+        // the engine's single-file replay mode does not look at `inconclusive`: a refused
+        // (unsafe) or unrunnable replay must not be reported as "held"
+        for e in &infra {
+            eprintln!("INCONCLUSIVE: replay not executed: {e}");
+        }
+        std::process::exit(2);
+    }
     for e in infra.into_iter().take(3) {
         ctx.inconclusive(e);
     }
